@@ -17,7 +17,8 @@ MANIFEST = dict(
          "the channel is closed in memory and in the store (C07_closed_persisted: a signature is returned only after the "
          "store acknowledged the write).  C07_accept_per_tag gives each conjunct for an arbitrary filter unless its own tag "
          "is downgraded.  The model is run against the real Validator (error tag, chosen assignment) and against real "
-         "channels brought to their states by commitment updates, through both entry points, on every run; every returned "
+         "channels brought to their states by commitment updates, through both entry points - called directly and as "
+         "SetupChannel / SignMutualCloseTx / SignMutualCloseTx2 protocol messages through the ChannelHandler - on every run; every returned "
          "signature is verified with libsecp256k1 against the BIP-143 digest of a closing transaction the harness assembles "
          "itself, and an independent u128 monitor evaluates the conjunction on every signature.",
     design="§4 C07",
@@ -41,6 +42,21 @@ def _strip(c):
     return {k: v for k, v in c.items() if k != "coq"}
 
 
+def _routes(cases):
+    d = {}
+    for c in cases:
+        k = d.setdefault("%s/phase%d/setup-%s" % (c["route"], c["phase"], c["channel_set_up_by"]), [0, 0])
+        k[0] += 1
+        k[1] += 1 if c["channel_code"] == 0 else 0
+    return d
+
+
+def _entry(c):
+    if c["route"] == "direct":
+        return "sign_mutual_close_tx" if c["phase"] == 1 else "sign_mutual_close_tx_phase2"
+    return "ChannelHandler::handle(%s), protocol %s" % (c["wire"]["message"], c["route"][6:])
+
+
 def _wallet_dist(cases):
     d = {}
     for c in cases:
@@ -60,11 +76,12 @@ def run(res):
     profiles = ["debug"] if quick else ["debug", "release"]
     n_chan = 260 if quick else 1500
     n_build = 400 if quick else 4000
-    cases, stats = [], []
+    cases, stats, setups = [], [], []
     for prof in profiles:
         r = lib.run_harness("close", "run", res.seed, n_chan, res.tier, profile=prof)
         cases += r.get("CASE", [])
         stats += r.get("STATS", [])
+        setups += r.get("SETUP", [])
     r = lib.run_harness("close", "build", res.seed, n_build, res.tier)
     builds = r.get("CASE", [])
     stats += r.get("STATS", [])
@@ -85,8 +102,13 @@ def run(res):
     mon = [c for c in cases if c["monitor_violation"]]
     for c in mon[:3]:
         res.violation("a cooperative close was signed outside the property: " + "; ".join(c["monitor_violation"][:3]),
-                      {"domain": "close-run", "seed": res.seed, "entry_point": "sign_mutual_close_tx" if c["phase"] == 1
-                       else "sign_mutual_close_tx_phase2", "case": _strip(c)})
+                      {"domain": "close-run", "seed": res.seed, "entry_point": _entry(c), "case": _strip(c)})
+    # SetupChannel messages: what the channel holds against what the message said; the upfront clause
+    bad_setups = [x for x in setups if x["monitor_violation"] or x["mapping_violation"]]
+    for x in bad_setups[:2]:
+        res.violation("SetupChannel message through the protocol handler: " +
+                      "; ".join(x["monitor_violation"] + ["field not carried into the channel: " + m for m in x["mapping_violation"]]),
+                      {"domain": "close-run", "seed": res.seed, "entry_point": "ChannelHandler::handle(SetupChannel)", "case": x})
     ledger_bad = [c for c in cases if not c["ledger_matches_state"]]
     for c in ledger_bad[:1]:
         res.violation("the harness's record of accepted commitments differs from the signer's current commitments "
@@ -148,7 +170,12 @@ def run(res):
                 "with right / wrong / empty / over-long path, xpub-derived, foreign allowlisted or not, upfront, empty, 260 "
                 "bytes; phase 1 additionally swapped outputs / paths, 0-3 outputs, path count off by one, version, lock time, "
                 "sequence, outpoint, extra input, script_sig, witness, zero-value and duplicated outputs; the store refusing "
-                "the write in 1 of 14.  build: LDK builder + rust-bitcoin weight on script lengths 0..300 and values 0, 1, "
+                "the write in 1 of 14.  Half of the channels are set up by a SetupChannel message and half of the requests travel "
+                "as SignMutualCloseTx (tx + PSBT whose outputs carry the paths as bip32_derivation or tap_key_origins, own "
+                "unsigned tx resized / perturbed, arbitrary remote_funding_key and scripts) or SignMutualCloseTx2 messages, encoded "
+                "with as_vec, decoded with from_vec and handled by the ChannelHandler at protocol 4/5/6; the model request and "
+                "the monitor's facts come from an independent statement of what each wire field means, not from the channel.  "
+                "build: LDK builder + rust-bitcoin weight on script lengths 0..300 and values 0, 1, "
                 "equal, 2^64-1.  Non-trivial = signed, or refused by one of the validator's own policy checks; distinct by "
                 "full Coq term.",
         "samples": [_strip(signed[0]) if signed else None, _strip(cases[1]) if len(cases) > 1 else None,
@@ -161,6 +188,11 @@ def run(res):
         "signatures_returned": len(signed),
         "observed_distribution(validator/channel code)": dist,
         "request_kinds(requests, signed)": kinds,
+        "routes(requests, signed)": _routes(cases),
+        "setup_channel_messages": {"sent": len(setups), "accepted": len([x for x in setups if x["accepted"]]),
+                                   "with_upfront_script": len([x for x in setups if x["message"]["local_shutdown_script"]]),
+                                   "with_upfront_script_accepted": len([x for x in setups if x["message"]["local_shutdown_script"] and x["accepted"]]),
+                                   "mapping_or_monitor_failures": len(bad_setups)},
         "phase1_signed": len(p1_signed),
         "phase1_signed_by_second_attempt": len(second),
         "wallet_answers(can_spend/allowlisted)": _wallet_dist(cases),
